@@ -580,7 +580,7 @@ class C06(Prop):
 
 # =================================================================================== C07
 
-NAME_COST = 1024          # octets examined per name, at most (Proofs/DecName.v)
+NAME_COST = 544           # octets examined per name, at most (Proofs/DecNameSpec.v name_cost)
 COST_K = NAME_COST + 16   # per input octet
 COST_C = 2048
 
